@@ -1,4 +1,5 @@
 import Pearl.Proofs.BlobLemmas
+import Pearl.Proofs.ScanRegions
 /-
 C05 "Byte integrity": property theorems of the byte layer (L5), each with a non-vacuity example.
 
@@ -403,18 +404,117 @@ theorem torn_tail_witness :
   subst this
   decide
 
+/-! ### the general torn tail (finding E8 at the byte level)
+
+`Rs` are the intact records, `R` the last record, of which the complete header and a PROPER prefix `cut`
+of `serMeta R.mt ++ R.data` reached the file. Range hypotheses as in `load_roundtrip_scan_partial`: the
+records are as the storage builds them with `u64` timestamps, and the blob that a complete write would
+have produced is shorter than 2^64 bytes. -/
+
+/-- the file with the torn last record -/
+def tornFile (Rs : List Record) (R : Record) (cut : List UInt8) : List UInt8 :=
+  appendRecords serBlobHeader Rs ++
+    serHeader (R.header.final (appendRecords serBlobHeader Rs).length) ++ cut
+
+/-- General form of `torn_tail_witness`. For every key length, intact records `Rs`, last record `R` and
+    proper prefix `cut` of its meta + data:
+    * the NON-validating scan accepts the torn record: it returns exactly the headers that were (or would
+      have been) pushed for `Rs ++ [R]`;
+    * the validating scan fails the WHOLE blob with a Bincode error (no prefix of good records is
+      returned) — unless `R` has no data (then only meta bytes are missing, which no scan reads, and the
+      torn record is accepted even with validation);
+    * the torn record cannot be loaded: `Entry::load` hits the end of the file. -/
+theorem torn_tail_general (klen : Nat) (Rs : List Record) (R : Record) (cut : List UInt8)
+    (hg : ∀ X ∈ Rs ++ [R], X.WF klen ∧ X.header.timestamp < 2 ^ 64)
+    (hlen : (appendRecords serBlobHeader (Rs ++ [R])).length < 2 ^ 64)
+    (hp : cut <+: serMeta R.mt ++ R.data) (hne : cut ≠ serMeta R.mt ++ R.data) :
+    rawRecordsLoad klen false (tornFile Rs R cut) = .ok (writtenHeaders serBlobHeader (Rs ++ [R])) ∧
+    rawRecordsLoad klen true (tornFile Rs R cut) =
+      (if R.data = [] then .ok (writtenHeaders serBlobHeader (Rs ++ [R]))
+       else .error (.load .bincode)) ∧
+    entryLoad (tornFile Rs R cut) (R.header.final (appendRecords serBlobHeader Rs).length) =
+      .error .bincode := by
+  have h0 := rawRecordsLoad_torn_prefix false Rs R cut hg hlen hp hne
+  have h1 := rawRecordsLoad_torn_prefix true Rs R cut hg hlen hp hne
+  rw [if_neg (by simp)] at h0
+  refine ⟨h0, ?_, ?_⟩
+  · unfold tornFile
+    rw [h1]
+    by_cases hd : R.data = []
+    · rw [if_neg (by simp [hd]), if_pos hd]
+    · rw [if_pos ⟨rfl, hd⟩, if_neg hd]
+  · have hwf := (hg R (by simp)).1
+    have hlt := prefix_length_lt hp hne
+    have him := R.image_length (appendRecords serBlobHeader Rs).length
+    rw [hwf.key] at him
+    rw [List.length_append] at hlt
+    have := entryLoad_torn (appendRecords serBlobHeader Rs) R hwf _ (57 + klen + cut.length) rfl
+      (by rw [him]; omega)
+    rw [take_image_of_prefix R hwf _ cut hp, ← List.append_assoc] at this
+    exact this
+
+/-- the same for model records: the blob of `recs` followed by a torn write of `(r, d)` -/
+theorem torn_tail_general_recs (klen : Nat) (recs : List (Rec × List UInt8)) (r : Rec) (d cut : List UInt8)
+    (hlen : (blobBytes klen (recs ++ [(r, d)])).length < 2 ^ 64)
+    (hts : ∀ x ∈ recs ++ [(r, d)], x.1.ts < 2 ^ 64)
+    (hp : cut <+: serMeta r.mt ++ (if r.del then [] else d))
+    (hne : cut ≠ serMeta r.mt ++ (if r.del then [] else d)) :
+    rawRecordsLoad klen false (blobBytes klen recs ++
+        serHeader ((recordOf klen r d).header.final (blobBytes klen recs).length) ++ cut) =
+      .ok (blobHeaders klen (recs ++ [(r, d)])) := by
+  have hrs : recordsOf klen (recs ++ [(r, d)]) = recordsOf klen recs ++ [recordOf klen r d] := by
+    simp [recordsOf]
+  have hg : ∀ X ∈ recordsOf klen recs ++ [recordOf klen r d],
+      X.WF klen ∧ X.header.timestamp < 2 ^ 64 := by
+    rw [← hrs]; exact goodRecs_recordsOf klen _ hts
+  rw [← recordOf_mt klen r d, ← recordOf_data klen r d] at hp hne
+  unfold blobBytes blobHeaders at *
+  rw [hrs] at hlen ⊢
+  exact (torn_tail_general klen _ _ cut hg hlen hp hne).1
+
+/-- non-vacuity: `tornData` of `torn_tail_witness` is the instance `Rs` = the first two records of
+    `recs3`, `R` = the third, `cut` = its (empty) meta and the first 11 of its 16 data bytes; the
+    hypotheses hold and the conclusion is the first clause of `torn_tail_witness` -/
+example : rawRecordsLoad 3 false tornData = .ok (blobHeaders 3 recs3) := by
+  have hcut : (le64 0 ++ sq16.take 11) <+: serMeta none ++ (if false then [] else sq16) :=
+    ⟨sq16.drop 11, by decide⟩
+  have h := torn_tail_general_recs 3 (recs3.take 2)
+    { key := 1, ts := 101, del := false, mt := none, data := ⟨16, 0⟩ } sq16 (le64 0 ++ sq16.take 11)
+    (by decide) (by decide) hcut (by decide)
+  have hf : tornData = blobBytes 3 (recs3.take 2) ++
+      serHeader ((recordOf 3 { key := 1, ts := 101, del := false, mt := none, data := ⟨16, 0⟩ }
+        sq16).header.final (blobBytes 3 (recs3.take 2)).length) ++ (le64 0 ++ sq16.take 11) := by
+    decide
+  rw [hf, h]
+  rfl
+
+/-- non-vacuity of the data-less case: a torn deletion marker (meta cut after 3 of its 8 bytes) is
+    accepted by the validating scan too -/
+example : rawRecordsLoad 3 true (tornFile (recordsOf 3 (recs3.take 1)) (Record.deleted 3 1 103 none)
+    [0, 0, 0]) = .ok (blobHeaders 3 (recs3.take 2)) := by
+  have h := (torn_tail_general 3 (recordsOf 3 (recs3.take 1)) (Record.deleted 3 1 103 none) [0, 0, 0]
+    (by
+      intro X hX
+      simp only [recordsOf, recs3, List.take, List.map_cons, List.map_nil, List.cons_append,
+        List.nil_append, List.mem_cons, List.not_mem_nil, or_false] at hX
+      rcases hX with rfl | rfl
+      · exact ⟨recordOf_WF .., by decide⟩
+      · exact ⟨Record.deleted_WF .., by decide⟩)
+    (by decide) ⟨[0, 0, 0, 0, 0], by decide⟩ (by decide)).2.1
+  rw [if_pos (by decide)] at h
+  rw [h]
+  rfl
+
 end Pearl.C05
 
 /-
 NOT YET PROVED (none of the requested statements is missing; these are generalisations of witnesses above)
 
-1. general form of `torn_tail_witness`, first clause: for every `klen`, every list `Rs` of well-formed
-   records, every well-formed `R`, and every proper prefix `cut` of `serMeta R.mt ++ R.data`,
-     let pre := appendRecords serBlobHeader Rs
-     rawRecordsLoad klen false (pre ++ serHeader (R.header.final pre.length) ++ cut)
-       = .ok (writtenHeaders serBlobHeader (Rs ++ [R]))
-   (under the range hypotheses of `load_roundtrip_scan_partial`).
-2. `altered_never_served` with the precise error: under its hypotheses
+(The general form of `torn_tail_witness` IS proved: `torn_tail_general` / `torn_tail_general_recs` above — first
+ clause for the non-validating scan, plus what the validating scan and `Entry::load` do on the same file.
+ Lemmas: Pearl/Proofs/ScanRegions.lean part A, on top of `rawRecordsLoad_torn_tail` of FaultLemmas.)
+
+1. `altered_never_served` with the precise error: under its hypotheses
      entryLoad (p ++ w2 ++ s) h = .error .recordDataChecksum.
 
 Statements that are FALSE of the model and are kept as refutations + `_partial` versions:
